@@ -61,7 +61,17 @@ func (fe *FnEnc) call(ins ssa.Instruction, c *ssa.CallCommon, rt types.Type) Val
 		fe.panicCheck("nilderef", "(not (= "+recv.Term+" 0))", pos)
 		key := fe.ifaceMethodKey(c)
 		if ct := fe.g.db.Contracts[key]; ct != nil {
-			return fe.useContract(ct, args, rt, pos, key)
+			res := fe.useContract(ct, args, rt, pos, key)
+			ic := IfaceCall{Method: c.Method.Name(), Guard: fe.guard}
+			if rt != nil {
+				if len(res.Tup) > 0 {
+					ic.Results = res.Tup
+				} else {
+					ic.Results = []Val{res}
+				}
+			}
+			fe.top.ifaceCalls = append(fe.top.ifaceCalls, ic)
+			return res
 		}
 		return fe.unknownCall("interface method "+key, args, rt)
 	}
@@ -130,9 +140,25 @@ func (fe *FnEnc) pureFuncCall(name string, p *ssa.Parameter, args []Val, rt type
 		as = append(as, fe.valTerm(a))
 		sorts = append(sorts, s.sortOf(a.T))
 	}
+	s.note("function-typed parameter %s of %s is assumed pure (deterministic, no side effects)", name, fe.top.fnName())
+	if tup, ok := rt.(*types.Tuple); ok && tup.Len() != 1 {
+		out := Val{T: rt}
+		for i := 0; i < tup.Len(); i++ {
+			ct := tup.At(i).Type()
+			fi := fmt.Sprintf("%s_%d", fn, i)
+			s.declFun(fi, sorts, s.sortOf(ct))
+			t := "(" + fi + " " + strings.Join(as, " ") + ")"
+			if len(as) == 0 {
+				t = fi
+			}
+			n := s.name("pf", s.sortOf(ct), t)
+			s.assumeRange(ct, n)
+			out.Tup = append(out.Tup, fe.wrapTerm(n, ct))
+		}
+		return out
+	}
 	rs := s.sortOf(rt)
 	s.declFun(fn, sorts, rs)
-	s.note("function-typed parameter %s of %s is assumed pure (deterministic, no side effects)", name, fe.top.fnName())
 	t := "(" + fn + " " + strings.Join(as, " ") + ")"
 	if len(as) == 0 {
 		t = fn
@@ -149,7 +175,12 @@ func (fe *FnEnc) ifaceMethodKey(c *ssa.CallCommon) string {
 func (fe *FnEnc) staticCall(f *ssa.Function, bindings []Val, args []Val, rt types.Type, pos token.Pos) Val {
 	key := fnKey(f)
 	if ct := fe.g.db.Contracts[key]; ct != nil && bindings == nil {
-		return fe.useContract(ct, args, rt, pos, key)
+		inlinable := (fe.g.inlineForReplay || ct.Opts["inline"] == "always") && !ct.Trusted && f.Blocks != nil && fe.g.inRepo(f) && !fe.onStack(f) && fe.depth < maxInlineDepth
+		if !inlinable {
+			fe.top.staticContractCalls++
+			return fe.useContract(ct, args, rt, pos, key)
+		}
+		return fe.inline(f, bindings, args, rt)
 	}
 	if v, ok := fe.externModel(key, f, args, rt, pos); ok {
 		return v
@@ -207,7 +238,7 @@ func (fe *FnEnc) inline(f *ssa.Function, bindings []Val, args []Val, rt types.Ty
 		return fe.freshVal("nr", rt)
 	}
 	fe.guard = fe.s.name("g", "Bool", or(gs...))
-	fe.mem = fe.s.mergeMem(gs, ms)
+	fe.mem = fe.mergeMems(gs, ms)
 	if rt == nil {
 		return Val{}
 	}
@@ -299,6 +330,15 @@ func (fe *FnEnc) externModel(key string, f *ssa.Function, args []Val, rt types.T
 	case "sync.RWMutex.RUnlock":
 		fe.lockOp(args[0], "runlock", pos)
 		return Val{}, true
+	case "bytes.Compare":
+		// lexicographic comparison: an uninterpreted function of the two sequences with values -1, 0, 1
+		a, b := fe.valTerm(args[0]), fe.valTerm(args[1])
+		es := s.sortOf(types.Typ[types.Uint8])
+		s.declFun("u_bytes_cmp", []string{s.seqSort(es), s.seqSort(es)}, "Int")
+		s.usedSpec["bytes_cmp"] = true
+		r := s.name("bcmp", "Int", "(u_bytes_cmp "+a+" "+b+")")
+		s.assert("(and (<= (- 1) " + r + ") (<= " + r + " 1))")
+		return Val{T: rt, Term: r}, true
 	case "bytes.Equal":
 		a, b := fe.valTerm(args[0]), fe.valTerm(args[1])
 		es := s.sortOf(types.Typ[types.Uint8])
@@ -403,9 +443,7 @@ func (fe *FnEnc) builtin(b *ssa.Builtin, c *ssa.CallCommon, args []Val, rt types
 	case "cap":
 		a := args[0]
 		if a.View != nil {
-			n := s.fresh("cap", "Int")
-			s.assert("(>= " + n + " " + a.View.Len + ")")
-			return Val{T: rt, Term: n}
+			return Val{T: rt, Term: fe.viewCap(a.View)}
 		}
 	case "append":
 		return fe.appendBuiltin(args, rt, pos)
@@ -549,6 +587,10 @@ func (fe *FnEnc) useContract(ct *Contract, args []Val, rt types.Type, pos token.
 		}
 		fe.check("call.pre", site+"."+lab, ev.evalBool(r.E), ct.Name+" requires "+r.Src, pos)
 	}
+	// a callee that writes, invoked on state guarded by the receiver's mutex, needs the exclusive lock
+	if len(ct.Assigns) > 0 {
+		fe.calleeWritesCheck(ct, pos)
+	}
 	// havoc assigns
 	fe.mem = pre.clone()
 	for _, as := range ct.Assigns {
@@ -664,4 +706,37 @@ func (fe *FnEnc) havocLvalue(ev *Eval, cl Clause) {
 	default:
 		fe.unsupported("assigns clause %q does not denote a location", cl.Src)
 	}
+}
+
+func (fe *FnEnc) calleeWritesCheck(ct *Contract, pos token.Pos) {
+	top := fe.top
+	recv := top.fn.Signature.Recv()
+	if recv == nil || len(top.fn.Params) == 0 {
+		return
+	}
+	rt := recv.Type()
+	if p, ok := rt.(*types.Pointer); ok {
+		rt = p.Elem()
+	}
+	gd := fe.g.guardFor(rt)
+	if gd == nil {
+		return
+	}
+	// only abstract (ghost) state of guarded sub-objects is tracked: any ghost assigns counts as a write
+	writes := false
+	for _, a := range ct.Assigns {
+		if c, ok := a.E.(*ECall); ok && c.Fn == "ghost" {
+			writes = true
+		}
+	}
+	if !writes {
+		return
+	}
+	rv := top.vals[top.fn.Params[0]]
+	gk := "lock_" + mangle(types.TypeString(rt, nil)) + "_" + gd.Mutex
+	fe.g.ghostSorts[gk] = "(Array Int Int)"
+	cur := fe.s.ghostGet(fe.mem, gk, "(Array Int Int)")
+	top.sites["lock:callee-writes"]++
+	fe.check("lock:callee-writes", fmt.Sprintf("@%d.%s", top.sites["lock:callee-writes"], ct.Name), "(= (select "+cur+" "+rv.Term+") 2)",
+		"call of "+ct.Name+" (which mutates guarded state) with the exclusive lock held", pos)
 }
